@@ -1,6 +1,6 @@
 use crate::internal::category::Category;
 use crate::internal::codepage::CodePage;
-use crate::internal::column::Column;
+use crate::internal::column::{Column, ColumnType};
 use crate::internal::expr::Expr;
 use crate::internal::query::{Delete, Insert, Select, Update};
 use crate::internal::stream::{StreamReader, StreamWriter, Streams};
@@ -33,6 +33,14 @@ const STRING_DATA_TABLE_NAME: &str = "_StringData";
 const STRING_POOL_TABLE_NAME: &str = "_StringPool";
 
 const MAX_NUM_TABLE_COLUMNS: usize = 32;
+
+// The column type bitfield in the _Columns table has eight bits for the
+// maximum length of a string column.
+const MAX_STRING_COLUMN_LENGTH: usize = 255;
+
+// Enumerated values are stored in the _Validation table as a single string,
+// separated by this character.
+const ENUM_VALUE_SEPARATOR: char = ';';
 
 // ========================================================================= //
 
@@ -484,7 +492,7 @@ impl<F: Read + Seek> Package<F> {
                     if !enum_values.is_null() {
                         let enum_values: Vec<&str> =
                             expect_str(&enum_values, VALIDATION_TABLE_NAME)?
-                                .split(';')
+                                .split(ENUM_VALUE_SEPARATOR)
                                 .collect();
                         builder = builder.enum_values(&enum_values);
                     }
@@ -638,6 +646,29 @@ impl<F: Read + Write + Seek> Package<F> {
                     );
                 }
                 column_names.insert(name);
+                if let ColumnType::Str(max_len) = column.coltype() {
+                    if max_len > MAX_STRING_COLUMN_LENGTH {
+                        invalid_input!(
+                            "Column {:?} has a maximum length of {}, but \
+                             string columns are limited to {}",
+                            name,
+                            max_len,
+                            MAX_STRING_COLUMN_LENGTH
+                        );
+                    }
+                }
+                for value in column.enum_values().unwrap_or(&[]).iter() {
+                    if value.is_empty() || value.contains(ENUM_VALUE_SEPARATOR)
+                    {
+                        invalid_input!(
+                            "Column {:?} has the enumerated value {:?}, but \
+                             such values cannot be empty or contain {:?}",
+                            name,
+                            value,
+                            ENUM_VALUE_SEPARATOR
+                        );
+                    }
+                }
             }
         }
         if self.tables.contains_key(&table_name) {
@@ -696,7 +727,9 @@ impl<F: Read + Write + Seek> Package<F> {
                         Value::Null
                     },
                     if let Some(values) = column.enum_values() {
-                        Value::Str(values.join(";"))
+                        Value::Str(
+                            values.join(&ENUM_VALUE_SEPARATOR.to_string()),
+                        )
                     } else {
                         Value::Null
                     },
